@@ -409,6 +409,79 @@ theorem chainStmt_exec (L : Layout) (s : Cpu) (v : LV) (a : RA) (op1 : BOp) (b1 
   · simp only [execSeq_append', e1, Option.bind_some, e2, e3]
   · rw [m3, m2, a2, a1, m1]; rfl
 
+/-! ### linear expressions (stage 8) -/
+
+/-- `STA cctmp ; <load x> ; SEC ; SBC cctmp`: x − (the value that was in A) -/
+theorem subFrom_exec (L : Layout) (s : Cpu) (x : RA) :
+    ∃ s2, execSeq s ([(Mn.STA, opd L tmp)] ++ loadA Opd.none (opd L) x ++ [(Mn.SEC, Opd.none), (Mn.SBC, opd L tmp)]) = some s2 ∧
+      s2.a = rval L { mem := s.mem.write (L "cctmp") s.a, x := s.x, y := s.y } x - s.a ∧
+      srcOf s2 = { mem := s.mem.write (L "cctmp") s.a, x := s.x, y := s.y } ∧ s2.sp = s.sp ∧ s2.f.z = (s2.a == 0) := by
+  obtain ⟨s1, e1, a1, m1, p1, _⟩ := loadA_exec L { s with mem := s.mem.write (L "cctmp") s.a } x
+  have hm : s1.mem = s.mem.write (L "cctmp") s.a := congrArg SrcSt.mem m1
+  have hx : s1.x = s.x := congrArg SrcSt.x m1
+  have hy : s1.y = s.y := congrArg SrcSt.y m1
+  have hrd : ({ s1 with f := { s1.f with c := true } } : Cpu).rd (opd L tmp) = some s.a := by
+    simp [tmp, opd, Cpu.rd, Cpu.ea, hm]
+  refine ⟨({ s1 with f := { s1.f with c := true } } : Cpu).sbc s.a, ?_, ?_, ?_, ?_, ?_⟩
+  · have h0 : execSeq s [(Mn.STA, opd L tmp)] = some { s with mem := s.mem.write (L "cctmp") s.a } := by
+      simp [execSeq, Cpu.exec, tmp, opd, Cpu.ea]
+    rw [execSeq_append', execSeq_append', h0]
+    simp only [Option.bind_some, e1]
+    simp [execSeq, Cpu.exec, hrd]
+  · rw [sbc_after_sec _ _ (by simp)]
+    simp only [a1, srcOf]
+  · simp [srcOf, hm, hx, hy]
+  · simp [p1]
+  · simp [Cpu.sbc, Cpu.adc]
+
+theorem linCode_exec (L : Layout) (e : LExpr) (s : Cpu) :
+    ∃ s2, execSeq s (linCode Opd.none (opd L) e) = some s2 ∧ s2.a = (linVal L (srcOf s) e).2 ∧
+      srcOf s2 = (linVal L (srcOf s) e).1 ∧ s2.sp = s.sp ∧ s2.f.z = (s2.a == 0) := by
+  induction e generalizing s with
+  | pair a op b =>
+    obtain ⟨s1, e1, a1, m1, p1, z1⟩ := loadA_exec L s (rordered op a b).1
+    obtain ⟨s2, e2, a2, m2, p2, z2⟩ := opCode_exec L s1 op (rordered op a b).2
+    refine ⟨s2, ?_, ?_, ?_, by rw [p2, p1], z2 z1⟩
+    · simp only [linCode, execSeq_append', e1, Option.bind_some, e2]
+    · rw [a2, a1, m1]; simp [linVal]
+    · rw [m2, m1]; simp [linVal]
+  | left e op y ih =>
+    obtain ⟨s1, e1, a1, m1, p1, z1⟩ := ih s
+    obtain ⟨s2, e2, a2, m2, p2, z2⟩ := opCode_exec L s1 op y
+    refine ⟨s2, ?_, ?_, ?_, by rw [p2, p1], z2 z1⟩
+    · simp only [linCode, execSeq_append', e1, Option.bind_some, e2]
+    · rw [a2, a1, m1]; simp [linVal]
+    · rw [m2, m1]; simp [linVal]
+  | right x op e ih =>
+    obtain ⟨s1, e1, a1, m1, p1, z1⟩ := ih s
+    by_cases hs : op = .sub
+    · subst hs
+      obtain ⟨s2, e2, a2, m2, p2, z2⟩ := subFrom_exec L s1 x
+      have hm : s1.mem = (linVal L (srcOf s) e).1.mem := congrArg SrcSt.mem m1
+      have hx : s1.x = (linVal L (srcOf s) e).1.x := congrArg SrcSt.x m1
+      have hy : s1.y = (linVal L (srcOf s) e).1.y := congrArg SrcSt.y m1
+      refine ⟨s2, ?_, ?_, ?_, by rw [p2, p1], z2⟩
+      · simp only [linCode, execSeq_append', e1, Option.bind_some]
+        simpa using e2
+      · rw [a2, a1, hm, hx, hy]; simp [linVal]
+      · rw [m2, a1, hm, hx, hy]; simp [linVal]
+    · obtain ⟨s2, e2, a2, m2, p2, z2⟩ := opCode_exec L s1 op x
+      have hne : (op == BOp.sub) = false := by cases op <;> simp_all
+      refine ⟨s2, ?_, ?_, ?_, by rw [p2, p1], z2 z1⟩
+      · simp only [linCode, hne, execSeq_append', e1, Option.bind_some]
+        simpa using e2
+      · rw [a2, a1, m1]; simp [linVal, hne]
+      · rw [m2, m1]; simp [linVal, hne]
+
+theorem linStmt_exec (L : Layout) (s : Cpu) (v : LV) (e : LExpr) :
+    ∃ s', execSeq s (linCode Opd.none (opd L) e ++ storeA Opd.none (opd L) v) = some s' ∧
+      srcOf s' = wr L (linVal L (srcOf s) e).1 v (linVal L (srcOf s) e).2 ∧ s'.sp = s.sp ∧ FlagsInv L (some v) s' := by
+  obtain ⟨s2, e2, a2, m2, p2, z2⟩ := linCode_exec L e s
+  obtain ⟨s3, e3, m3, p3, z3⟩ := storeA_exec L s2 v
+  refine ⟨s3, ?_, ?_, by rw [p3, p2], z3 z2⟩
+  · simp only [execSeq_append', e2, Option.bind_some, e3]
+  · rw [m3, m2, a2]
+
 /-- every statement, every layout, every machine state: the code ends, memory / X / Y are what the source
     prescribes, SP is untouched, and the generator's belief about the flags is true afterwards -/
 theorem rflat_correct (L : Layout) (zp : String → Bool) (st : RStmt) (fl : Option FRef) (s : Cpu) (hinv : FlagsInv L fl s) :
@@ -420,6 +493,9 @@ theorem rflat_correct (L : Layout) (zp : String → Bool) (st : RStmt) (fl : Opt
   | opasg v op a => simpa [rgenOps, rtemplate, rspec, flagsAfter] using binCode_exec L zp s fl v op v.ra a hinv
   | inc v => simpa [rgenOps, rtemplate, rspec, flagsAfter] using incCode_exec L s true v
   | dec v => simpa [rgenOps, rtemplate, rspec, flagsAfter] using incCode_exec L s false v
+  | lin v e =>
+    obtain ⟨s', h1, h2, h3, h4⟩ := linStmt_exec L s v e
+    exact ⟨s', by simpa [rgenOps, rtemplate] using h1, by simpa [rspec] using h2, h3, by simpa [flagsAfter] using h4⟩
   | chain v a op1 b1 ops =>
     obtain ⟨s', h1, h2, h3, h4⟩ := chainStmt_exec L s v a op1 b1 ops
     exact ⟨s', by simpa [rgenOps, rtemplate] using h1, by simpa [rspec] using h2, h3, by simpa [flagsAfter] using h4⟩
